@@ -86,14 +86,25 @@ Print Assumptions C02_resolved_rpc_absolute.
    asMessageReservedRange / asEnumReservedRange): a range written `s to max` ends at the limit handed in - in the
    descriptor one beyond it for the half-open ranges of a message (2^29 for an ordinary message, 2^31-1 for a message
    set), the limit itself, 2^31-1, for the closed reserved range of an enum - and nothing is reported when the start is
-   inside the limits.  Which limit a message hands to its ranges (field_max or msgset_max, the same one for extension
-   ranges, reserved ranges and field numbers) is in Model/Lower.v lower_elem and tied to the code by the differential
-   oracle (range stratum of checks/C02.py). *)
+   inside the limits.  Which limit a message hands to its ranges is the next theorem; that the mirror chooses as the code does is
+   tied in by the differential oracle (range stratum of checks/C02.py). *)
 Theorem C02_range_max : forall r, sr_max r = true ->
   (forall mt, (1 <= sr_start r <= mt)%Z -> msg_range r mt = ((sr_start r, (mt + 1)%Z), [])) /\
   ((int32_min <= sr_start r <= int32_max)%Z -> enum_range r = ((sr_start r, int32_max), [])).
 Proof. exact range_max_lemma. Qed.
 Print Assumptions C02_range_max.
+
+(* which limit: the reserved and the extension ranges of the descriptor of a message are the ranges written in the body
+   of that message, in source order, every one of them bounded by the limit of that message itself ([msg_limit]: 2^31-2
+   iff its own body carries message_set_wire_format = true, else 2^29-1) - not by the limit of the enclosing message
+   ([mt]), and the same limit for both kinds of range *)
+Theorem C02_message_ranges_limit : forall syn mt d a nm body, (S d < 32)%nat ->
+  exists md, a_nested (lower_elem syn mt d a (MMessage nm body)) = a_nested a ++ [md] /\
+    dm_rsvr md = flat_map (own_rsvr (msg_limit body)) body /\
+    dm_extr md = flat_map (own_extr (msg_limit body)) body /\
+    dm_msgset md = match is_msgset body with MsYes => true | _ => false end.
+Proof. exact message_ranges_limit_lemma. Qed.
+Print Assumptions C02_message_ranges_limit.
 
 (* non-vacuity: reserved 2000 to max in a message set ends at 2147483647, in an ordinary message at 536870912 *)
 Example C02_range_max_nonvacuous :
